@@ -509,6 +509,11 @@ pub struct PipeCase {
     pub eps: Vec<EpSpec>,
     pub policy_max: Option<usize>,
     pub reqs: Vec<PipeReq>,
+    /// which public entry point starts the server: 0 ServerBuilder::start,
+    /// 1 ServerBuilder::build_starter + HttpServerStarter::start,
+    /// 2 HttpServerStarter::new + start (no policy argument: unversioned only)
+    #[serde(default)]
+    pub start_via: u8,
 }
 
 fn hdr_ok_for_hyper(v: &[u8]) -> bool {
@@ -531,7 +536,20 @@ pub fn exec_pipeline(case: &PipeCase) -> Option<Line> {
                 dropshot::ClientSpecifiesVersionInHeader::new(http::HeaderName::from_static("x-v"), chain[i].clone()),
             )));
         }
-        b.start().map_err(|e| e.to_string())
+        match (case.start_via, case.policy_max) {
+            (0, _) => b.start().map_err(|e| e.to_string()),
+            (2, None) => {
+                drop(b);
+                let (_, api) = register_all(&chain, &case.eps);
+                let mut config = dropshot::ConfigDropshot::default();
+                config.bind_address = "127.0.0.1:0".parse().unwrap();
+                #[allow(deprecated)]
+                dropshot::HttpServerStarter::new(&config, api.expect("registered before"), (), &quiet_log())
+                    .map(|s| s.start())
+                    .map_err(|e| e.to_string())
+            }
+            _ => b.build_starter().map(|s| s.start()).map_err(|e| e.to_string()),
+        }
     };
     let mut obs: Vec<Obs> = vec![];
     let mut hdrs: Vec<String> = vec![];
@@ -623,6 +641,7 @@ pub fn exec_pipeline(case: &PipeCase) -> Option<Line> {
         "pipeline".to_string(),
         format!("policy:{}", if case.policy_max.is_some() { "header" } else { "unversioned" }),
         format!("started:{}", did_start),
+        format!("start-via:{}", ["ServerBuilder::start", "build_starter", "HttpServerStarter::new"][(case.start_via % 3) as usize]),
     ];
     for _ in 0..n(|o| matches!(o, Obs::Found { .. })) { tags.push("pipe:found".into()); }
     for _ in 0..n(|o| matches!(o, Obs::E404)) { tags.push("pipe:404".into()); }
@@ -649,8 +668,8 @@ pub fn gen_pipeline(opts: &Opts) -> Vec<PipeCase> {
         let chain = crate::c05::chain_for(&mut rng);
         let base = gen_case(&mut rng, 4, 5, 4, &chain);
         let vs: Vec<Version> = chain.iter().map(|s| Version::parse(s).unwrap()).collect();
-        // one case in eight: the unversioned policy (a versioned table must then be refused at start)
-        let policy_max = if rng.chance(1, 8) { None } else { Some(rng.below(chain.len())) };
+        // one case in four: the unversioned policy (a versioned table must then be refused at start)
+        let policy_max = if rng.chance(1, 4) { None } else { Some(rng.below(chain.len())) };
         // header values: every chain version, versions between and beyond them, and junk
         let mut pool: Vec<Option<Vec<u8>>> = vec![None];
         for v in &vs {
@@ -684,7 +703,8 @@ pub fn gen_pipeline(opts: &Opts) -> Vec<PipeCase> {
             };
             reqs.push(PipeReq { method, path, header });
         }
-        out.push(PipeCase { chain, eps: base.eps, policy_max, reqs });
+        let start_via = rng.below(3) as u8;
+        out.push(PipeCase { chain, eps: base.eps, policy_max, reqs, start_via });
     }
     out
 }
